@@ -135,7 +135,8 @@ __CPROVER_ensures(PTR_EQ(__CPROVER_return_value, &g_stype[__CPROVER_old(g_type_n
 ;
 /* bool Expression::isConst() const : any answer */
 _Bool __g2c_nondet_bool(void);
-_Bool VCALL_Expression_isConst(const struct Expression *e) { (void)e; return __g2c_nondet_bool(); }
+int g_isconst_n; _Bool g_isconst_all = 1;   /* how often it was asked, and whether every answer so far was "yes" */
+_Bool VCALL_Expression_isConst(const struct Expression *e) { _Bool r = __g2c_nondet_bool(); (void)e; g_isconst_n++; g_isconst_all = g_isconst_all && r; return r; }
 #define ST1 (&g_stype[0])
 #define ST2 (&g_stype[1])
 #endif
